@@ -168,9 +168,20 @@ def build_obj(spec, tf=None, candles=None, cfg=None, suffix=None):
     return I.INDICATOR_MAP[spec["kind"]](**kw)
 
 
+_SHARED_ARGS = {}
+
+
 def build_member(member, cfg):
     """the object / dict handed to Hexital for a member {'kind','params','tf','form'}"""
     form = member.get("form", "obj")
+    if form == "dict_shared_args":
+        # two analysis members written with ONE `args` dict object (a user re-using a config fragment) and their differing arguments
+        # as direct keywords: the library must not keep, let alone write into, the caller's dict
+        shared = _SHARED_ARGS.setdefault(member["shared_key"], dict(member["shared_args"]))
+        d = {"analysis": member["analysis"], "args": shared, **{k: v for k, v in member["params"].items() if k not in member["shared_args"]}}
+        if member.get("tf"):
+            d["timeframe"] = member["tf"]
+        return d
     tf = member.get("tf")
     if tf and member.get("tf_lower"):
         tf = tf.lower()   # an equivalent spelling: validate_timeframe upper-cases it
@@ -219,6 +230,7 @@ def member_name(member, cfg=None):
 def build_hexital(cfg, members, candles, name="hx"):
     from hexital.core.hexital import Hexital
 
+    _SHARED_ARGS.clear()   # one shared dict object per Hexital built
     return Hexital(name, candles, [build_member(m, cfg) for m in members], timeframe=cfg.get("tf"), **hx_cfg_kwargs(cfg))
 
 
@@ -986,9 +998,15 @@ def check_c13(scn):
 
 
 def gen_c13(rng, size=50):
-    flavour = rng.choice(["substring", "substring", "suffix", "helper", "helper", "random", "random", "random", "alias", "field"])
+    flavour = rng.choice(["substring", "substring", "suffix", "helper", "helper", "random", "random", "random", "alias", "field", "sharedargs"])
     members = None
-    if flavour == "field":
+    if flavour == "sharedargs":
+        a = rng.choice(["rising", "falling", "mean_rising", "mean_falling", "highest", "lowest"])
+        fld = rng.choice(FIELDS)
+        l1, l2 = rng.sample([1, 2, 3, 4, 6, 8], 2)
+        members = [{"kind": "Amorph", "analysis": a, "params": {"indicator": fld, "length": ln}, "shared_args": {"indicator": fld},
+                    "shared_key": "k"} for ln in (l1, l2)]
+    elif flavour == "field":
         # an independent indicator that the user named like a CANDLE FIELD ("high", "volume", ...): a legal, distinct top-level name;
         # a member that reads that field of the candle (by default or through input_value) takes no input from it
         fld = rng.choice(["high", "low", "close", "open", "volume"])
@@ -1071,7 +1089,18 @@ def gen_c13(rng, size=50):
         cfg["tf"] = base_tf
     for m in members:
         m["tf"] = shared_tf
-        m["form"] = rng.choice(["obj", "obj", "dict", "obj_used"])
+        m["form"] = rng.choice(["obj", "obj", "dict", "obj_used"]) if flavour != "sharedargs" else "dict_shared_args"
+    if shared_tf is None and not cfg["tf"] and flavour != "sharedargs" and rng.random() < 0.3:
+        # members on DIFFERENT managers of the same Hexital: the observed one on the Hexital's candles, the others on a timeframe of
+        # their own (or the other way round) - what one manager does must not show on the other
+        if rng.random() < 0.5:
+            for m in members[1:]:
+                m["tf"] = rng.choice(pool)
+        else:
+            members[0]["tf"] = rng.choice(pool)
+    if rng.random() < 0.15:
+        s_ = gen.tf_seconds(base_tf)
+        cfg["life"] = s_ * rng.choice([3, 10, 20, 40]) + rng.choice([0, 0, 1, s_ // 2])
     if cfg["tf"] and rng.random() < 0.5:
         # the other members name the Hexital's own timeframe explicitly: a second manager over the same buckets
         for m in members[1:]:
@@ -1084,7 +1113,7 @@ def gen_c13(rng, size=50):
     lo = min(size, need + 3)
     n = rng.randint(lo, max(lo, size))
     price = rng.choice(["walk", "walk", "walk", "ints", "jumpy", "repeat", "big", "small", None])
-    stream, smeta = gen_stream_for(rng, n, base_tf if (shared_tf or cfg["tf"]) else None, True, price_style=price,
+    stream, smeta = gen_stream_for(rng, n, base_tf if (shared_tf or cfg["tf"] or cfg["life"] is not None or any(m.get("tf") for m in members)) else None, True, price_style=price,
                                    ts_style=rng.choice(["regular", "regular", "gaps"]))
     (init, chunks), shape = gen.gen_schedule(rng, n)
     steps = 1 + len(chunks)
